@@ -47,9 +47,10 @@ VARIABLES
     cmd,     \* the user-level command in flight (or idle)
     hist,    \* user-level history with observations, for replay
     ran,     \* targets whose script was started by the command in flight
-    ncmds
+    ncmds,
+    pool     \* free job tokens (the token pipe, abstractly)
 
-vars == <<fs, tmp, clock, w, runid, locks, procs, cmd, hist, ran, ncmds>>
+vars == <<fs, tmp, clock, w, runid, locks, procs, cmd, hist, ran, ncmds, pool>>
 
 NoPid == <<>>
 Top   == <<"c">>
@@ -73,13 +74,17 @@ ProcDefaults ==
      jobs |-> {}, err |-> 0,
      tgt |-> "", unl |-> FALSE, oob |-> FALSE, cyc |-> {},
      t |-> "", df |-> "", dv |-> 0, opi |-> 1, std |-> FALSE, file |-> FALSE,
-     val |-> NoVal, kid |-> NoPid]
+     val |-> NoVal, kid |-> NoPid, tok |-> 0]
 
 Alive(p)   == p \in DOMAIN procs
+
+\* Job tokens, abstractly: every process holds 0 or 1 token (`tok`), the rest
+\* are in `pool`.  A redo process needs its token to consider a target, hands
+\* it to the job it starts and gets one back when it reaps a job; a script
+\* lends its token to the redo-ifchange it waits for.
 Working(p) == procs[p].kind \in {"script", "unlocked"} /\ procs[p].pc = "run"
               /\ procs[p].kid = NoPid
 Active     == {p \in DOMAIN procs : Working(p)}
-CanStart   == Cardinality(Active) < J
 
 Spawn(ps, p, rec) == [q \in DOMAIN ps \cup {p} |-> IF q = p THEN rec ELSE ps[q]]
 Kill(ps, S)       == [q \in DOMAIN ps \ S |-> ps[q]]
@@ -106,6 +111,7 @@ Init ==
     /\ hist = << >>
     /\ ran = << >>
     /\ ncmds = 0
+    /\ pool = 0
 
 Quiet == DOMAIN procs = {} /\ cmd.kind = "idle"
 
@@ -120,7 +126,7 @@ StampRel(n) == LET s == w.db[n].stamp IN
 Snapshot ==
     [files |-> [n \in Files |-> IF fs[n].ex THEN fs[n].val ELSE NoVal],
      rows  |-> [n \in {m \in Names : w.ids[m] # 0} |->
-                  [gen |-> w.db[n].gen, ovr |-> w.db[n].ovr, checked |-> w.db[n].checked,
+                  [id |-> w.ids[n], gen |-> w.db[n].gen, ovr |-> w.db[n].ovr, checked |-> w.db[n].checked,
                    changed |-> w.db[n].changed, failed |-> w.db[n].failed,
                    stamp |-> StampRel(n), csum |-> w.db[n].csum]],
      edges |-> w.edges,
@@ -136,13 +142,13 @@ UserWrite(n) ==
     /\ clock' = clock + 1
     /\ fs' = [fs EXCEPT ![n] = FileRec(n, "user", clock + 1, "user")]
     /\ hist' = Append(hist, [a |-> "write", n |-> n, v |-> clock + 1])
-    /\ UNCHANGED <<tmp, w, runid, locks, procs, cmd, ran, ncmds>>
+    /\ UNCHANGED <<tmp, w, runid, locks, procs, cmd, ran, ncmds, pool>>
 
 UserRemove(n) ==
     /\ CanAct /\ n \in RmFiles /\ fs[n].ex
     /\ fs' = [fs EXCEPT ![n] = Absent]
     /\ hist' = Append(hist, [a |-> "rm", n |-> n])
-    /\ UNCHANGED <<tmp, clock, w, runid, locks, procs, cmd, ran, ncmds>>
+    /\ UNCHANGED <<tmp, clock, w, runid, locks, procs, cmd, ran, ncmds, pool>>
 
 \* next version of the rule text (new content, new stamp)
 DoEdit(df) ==
@@ -151,13 +157,13 @@ DoEdit(df) ==
     /\ fs' = [fs EXCEPT ![df] = [ex |-> TRUE, val |-> [n |-> df, k |-> "do", v |-> DoVer(df) + 1, d |-> <<>>],
                                  ver |-> clock + 1, own |-> "user"]]
     /\ hist' = Append(hist, [a |-> "doedit", n |-> df, v |-> DoVer(df) + 1])
-    /\ UNCHANGED <<tmp, w, runid, locks, procs, cmd, ran, ncmds>>
+    /\ UNCHANGED <<tmp, w, runid, locks, procs, cmd, ran, ncmds, pool>>
 
 DoRemove(df) ==
     /\ CanAct /\ df \in DoEdits /\ fs[df].ex
     /\ fs' = [fs EXCEPT ![df] = [Absent EXCEPT !.val = fs[df].val]]   \* remember the version
     /\ hist' = Append(hist, [a |-> "rm", n |-> df])
-    /\ UNCHANGED <<tmp, clock, w, runid, locks, procs, cmd, ran, ncmds>>
+    /\ UNCHANGED <<tmp, clock, w, runid, locks, procs, cmd, ran, ncmds, pool>>
 
 DoAdd(df) ==
     /\ CanAct /\ df \in DoEdits /\ ~fs[df].ex
@@ -166,7 +172,7 @@ DoAdd(df) ==
        /\ fs' = [fs EXCEPT ![df] = [ex |-> TRUE, val |-> [n |-> df, k |-> "do", v |-> v, d |-> <<>>],
                                     ver |-> clock + 1, own |-> "user"]]
        /\ hist' = Append(hist, [a |-> "doadd", n |-> df, v |-> v])
-    /\ UNCHANGED <<tmp, w, runid, locks, procs, cmd, ran, ncmds>>
+    /\ UNCHANGED <<tmp, w, runid, locks, procs, cmd, ran, ncmds, pool>>
 
 (***************************************************************************)
 (* Commands                                                                *)
@@ -180,7 +186,8 @@ StartBuild(c) ==
     /\ procs' = Spawn(procs, Top,
                       [ProcDefaults EXCEPT !.kind = "redo", !.pc = "pass1", !.rid = runid + 1,
                                            !.forced = (c.kind = "redo"), !.keep = c.keep,
-                                           !.targs = c.targs])
+                                           !.targs = c.targs, !.tok = 1])
+    /\ pool' = J - 1
     /\ UNCHANGED <<fs, tmp, clock, w, locks, hist>>
 
 EndBuild ==
@@ -190,7 +197,7 @@ EndBuild ==
     /\ cmd' = Idle
     /\ hist' = Append(hist, [a |-> "cmd", kind |-> cmd.kind, targs |-> cmd.targs, keep |-> cmd.keep,
                              rc |-> procs[Top].rc, ran |-> ran, snap |-> Snapshot])
-    /\ UNCHANGED <<fs, tmp, clock, w, runid, locks, ran, ncmds>>
+    /\ UNCHANGED <<fs, tmp, clock, w, runid, locks, ran, ncmds, pool>>
 
 \* redo-ood / redo-targets / redo-sources: read-only, but allocate a run id.
 QueryOut(kind, rid) ==
@@ -224,7 +231,7 @@ ErrorExit(p, code, w1) ==
     /\ procs' = [procs EXCEPT ![p].pc = "done", ![p].rc = code, ![p].jobs = {}]
     /\ locks' = ReleaseAll(locks, p)
     /\ w' = w1
-    /\ UNCHANGED <<fs, tmp, clock, runid, cmd, hist, ran, ncmds>>
+    /\ UNCHANGED <<fs, tmp, clock, runid, cmd, hist, ran, ncmds, pool>>
 
 \* ifchange.rs:69-97: record parent -> target edges before anything is built
 Declare(p) ==
@@ -232,7 +239,7 @@ Declare(p) ==
     /\ P.kind = "redo" /\ P.pc = "declare"
     /\ IF P.tgt = "" \/ P.unl THEN
           /\ procs' = [procs EXCEPT ![p].pc = "pass1"]
-          /\ UNCHANGED <<fs, tmp, clock, w, runid, locks, cmd, hist, ran, ncmds>>
+          /\ UNCHANGED <<fs, tmp, clock, w, runid, locks, cmd, hist, ran, ncmds, pool>>
        ELSE IF P.tgt \in {P.targs[k] : k \in 1..Len(P.targs)} THEN
           \* add_dep asserts self.id != src.id (state.rs:763)
           ErrorExit(p, 101, w)
@@ -241,7 +248,7 @@ Declare(p) ==
                  IF k = 0 THEN FromName(w, P.tgt) ELSE AddDep(F[k-1], P.tgt, "m", P.targs[k])
           IN /\ w' = F[Len(P.targs)]
              /\ procs' = [procs EXCEPT ![p].pc = "pass1"]
-             /\ UNCHANGED <<fs, tmp, clock, runid, locks, cmd, hist, ran, ncmds>>
+             /\ UNCHANGED <<fs, tmp, clock, runid, locks, cmd, hist, ran, ncmds, pool>>
 
 JobRec(t, k, sf, before, pid) ==
     [t |-> t, k |-> k, sf |-> sf, before |-> before, pid |-> pid, st |-> "run", rv |-> 0]
@@ -259,7 +266,7 @@ Decide(p, t, w1, adv) ==
         Imm(w2, rv) ==    \* job future already complete; Lock dropped at once
             /\ w' = w2
             /\ procs' = [procs EXCEPT ![p] = [adv EXCEPT !.err = IF rv # 0 THEN 1 ELSE adv.err]]
-            /\ UNCHANGED <<fs, tmp, clock, runid, locks, cmd, hist, ran, ncmds>>
+            /\ UNCHANGED <<fs, tmp, clock, runid, locks, cmd, hist, ran, ncmds, pool>>
     IN
     IF sb.v = "failed" THEN ErrorExit(p, 32, sb.w)
     ELSE IF sb.v = "cycle" THEN ErrorExit(p, 208, sb.w)
@@ -274,20 +281,22 @@ Decide(p, t, w1, adv) ==
             /\ tmp' = tmp \ {t}
             /\ locks' = lockIt
             /\ ran' = Append(ran, t)
-            /\ procs' = Spawn([procs EXCEPT ![p] = [adv EXCEPT !.jobs = @ \cup {JobRec(t, "self", ss.sf, before, s)}]],
-                              s, [ProcDefaults EXCEPT !.kind = "script", !.par = p, !.pc = "run",
+            /\ procs' = Spawn([procs EXCEPT ![p] = [adv EXCEPT !.jobs = @ \cup {JobRec(t, "self", ss.sf, before, s)},
+                                                               !.tok = 0]],
+                              s, [ProcDefaults EXCEPT !.kind = "script", !.par = p, !.pc = "run", !.tok = 1,
                                      !.rid = P.rid, !.keep = P.keep, !.t = t, !.df = ss.df,
                                      !.dv = DoVer(ss.df), !.cyc = P.cyc \cup {t}])
-            /\ UNCHANGED <<fs, clock, runid, cmd, hist, ncmds>>
+            /\ UNCHANGED <<fs, clock, runid, cmd, hist, ncmds, pool>>
     ELSE \* NeedTargets: redo-unlocked t deps...
         LET u == p \o <<t>> IN
         /\ w' = sb.w
         /\ locks' = lockIt
-        /\ procs' = Spawn([procs EXCEPT ![p] = [adv EXCEPT !.jobs = @ \cup {JobRec(t, "unl", sf, before, u)}]],
-                          u, [ProcDefaults EXCEPT !.kind = "unlocked", !.par = p, !.pc = "run",
+        /\ procs' = Spawn([procs EXCEPT ![p] = [adv EXCEPT !.jobs = @ \cup {JobRec(t, "unl", sf, before, u)},
+                                                           !.tok = 0]],
+                          u, [ProcDefaults EXCEPT !.kind = "unlocked", !.par = p, !.pc = "run", !.tok = 1,
                                  !.rid = P.rid, !.keep = P.keep, !.t = t, !.targs = sb.need,
                                  !.tgt = P.tgt, !.cyc = P.cyc])
-        /\ UNCHANGED <<fs, tmp, clock, runid, cmd, hist, ran, ncmds>>
+        /\ UNCHANGED <<fs, tmp, clock, runid, cmd, hist, ran, ncmds, pool>>
 
 \* pass 1 of builder::run
 Consider(p) ==
@@ -295,26 +304,26 @@ Consider(p) ==
     /\ P.kind = "redo" /\ P.pc = "pass1"
     /\ IF P.i > Len(P.targs) THEN
           /\ procs' = [procs EXCEPT ![p].pc = "pass2"]
-          /\ UNCHANGED <<fs, tmp, clock, w, runid, locks, cmd, hist, ran, ncmds>>
+          /\ UNCHANGED <<fs, tmp, clock, w, runid, locks, cmd, hist, ran, ncmds, pool>>
        ELSE
           LET t   == P.targs[P.i]
               nxt == [P EXCEPT !.i = P.i + 1]
           IN
           IF t \in {P.targs[k] : k \in 1..(P.i - 1)} THEN      \* `seen`
              /\ procs' = [procs EXCEPT ![p] = nxt]
-             /\ UNCHANGED <<fs, tmp, clock, w, runid, locks, cmd, hist, ran, ncmds>>
+             /\ UNCHANGED <<fs, tmp, clock, w, runid, locks, cmd, hist, ran, ncmds, pool>>
           ELSE
-             /\ CanStart
+             /\ P.tok = 1
              /\ IF P.err # 0 /\ ~P.keep THEN
                    /\ procs' = [procs EXCEPT ![p].pc = "pass2"]
-                   /\ UNCHANGED <<fs, tmp, clock, w, runid, locks, cmd, hist, ran, ncmds>>
+                   /\ UNCHANGED <<fs, tmp, clock, w, runid, locks, cmd, hist, ran, ncmds, pool>>
                 ELSE
                    LET w1 == FromName(w, t) IN
                    IF ~P.unl /\ t \in P.cyc THEN ErrorExit(p, 208, w1)
                    ELSE IF ~P.unl /\ locks[t] # NoPid THEN
                       /\ w' = w1
                       /\ procs' = [procs EXCEPT ![p] = [nxt EXCEPT !.queue = Append(@, t)]]
-                      /\ UNCHANGED <<fs, tmp, clock, runid, locks, cmd, hist, ran, ncmds>>
+                      /\ UNCHANGED <<fs, tmp, clock, runid, locks, cmd, hist, ran, ncmds, pool>>
                    ELSE Decide(p, t, w1, nxt)
 
 AllExited(P) == \A j \in P.jobs : j.st = "fs" \/ (Alive(j.pid) /\ procs[j.pid].pc = "done")
@@ -326,7 +335,7 @@ Pass2(p) ==
     /\ P.kind = "redo" /\ P.pc = "pass2"
     /\ P.queue # << >> /\ NoneRunning(P)
     /\ ~(P.err # 0 /\ ~P.keep)
-    /\ CanStart
+    /\ P.tok = 1
     /\ LET t   == Head(P.queue)
            nxt == [P EXCEPT !.queue = Tail(P.queue)]
        IN
@@ -334,7 +343,7 @@ Pass2(p) ==
        /\ IF t \in P.cyc THEN ErrorExit(p, 208, w)
           ELSE IF IsFailedRow(Load(w, EnvOf(p), t), P.rid) THEN
              /\ procs' = [procs EXCEPT ![p] = [nxt EXCEPT !.err = 2]]
-             /\ UNCHANGED <<fs, tmp, clock, w, runid, locks, cmd, hist, ran, ncmds>>
+             /\ UNCHANGED <<fs, tmp, clock, w, runid, locks, cmd, hist, ran, ncmds, pool>>
           ELSE Decide(p, t, w, nxt)
 
 \* builder.rs:499-584: the file operation of record_new_state
@@ -353,8 +362,10 @@ RecFs(p, j) ==
           /\ UNCHANGED clock
        ELSE UNCHANGED <<fs, clock>>
     /\ tmp' = tmp \ {j.t}
-    /\ procs' = Kill([procs EXCEPT ![p].jobs = (@ \ {j}) \cup {[j EXCEPT !.st = "fs", !.rv = out.rv]}],
+    /\ procs' = Kill([procs EXCEPT ![p].jobs = (@ \ {j}) \cup {[j EXCEPT !.st = "fs", !.rv = out.rv]},
+                                   ![p].tok = 1],
                      {j.pid})
+    /\ pool' = IF P.tok = 1 THEN pool + 1 ELSE pool
     /\ UNCHANGED <<w, runid, locks, cmd, hist, ran, ncmds>>
 
 \* builder.rs:585-636 + commit + Lock drop
@@ -365,7 +376,7 @@ RecCommit(p, j) ==
     /\ locks' = IF locks[j.t] = p THEN [locks EXCEPT ![j.t] = NoPid] ELSE locks
     /\ procs' = [procs EXCEPT ![p].jobs = @ \ {j},
                               ![p].err = IF j.rv # 0 THEN 1 ELSE @]
-    /\ UNCHANGED <<fs, tmp, clock, runid, cmd, hist, ran, ncmds>>
+    /\ UNCHANGED <<fs, tmp, clock, runid, cmd, hist, ran, ncmds, pool>>
 
 \* a redo-unlocked job ended: nothing to record, the lock is dropped
 UnlDone(p, j) ==
@@ -373,16 +384,35 @@ UnlDone(p, j) ==
     /\ P.kind = "redo" /\ j \in P.jobs /\ j.k = "unl"
     /\ Alive(j.pid) /\ procs[j.pid].pc = "done"
     /\ locks' = IF locks[j.t] = p THEN [locks EXCEPT ![j.t] = NoPid] ELSE locks
-    /\ procs' = Kill([procs EXCEPT ![p].jobs = @ \ {j},
+    /\ procs' = Kill([procs EXCEPT ![p].jobs = @ \ {j}, ![p].tok = 1,
                                    ![p].err = IF procs[j.pid].rc # 0 THEN 1 ELSE @], {j.pid})
+    /\ pool' = IF P.tok = 1 THEN pool + 1 ELSE pool
     /\ UNCHANGED <<fs, tmp, clock, w, runid, cmd, hist, ran, ncmds>>
+
+\* ensure_token: take a free token from the pool when about to consider a target
+Acquire(p) ==
+    LET P == procs[p] IN
+    /\ P.kind = "redo" /\ P.tok = 0 /\ pool > 0
+    /\ \/ P.pc = "pass1" /\ P.i <= Len(P.targs)
+       \/ P.pc = "pass2" /\ P.queue # << >> /\ NoneRunning(P)
+    /\ procs' = [procs EXCEPT ![p].tok = 1]
+    /\ pool' = pool - 1
+    /\ UNCHANGED <<fs, tmp, clock, w, runid, locks, cmd, hist, ran, ncmds>>
+
+\* wait_all: give up the own token while jobs are still running
+Release(p) ==
+    LET P == procs[p] IN
+    /\ P.kind = "redo" /\ P.pc = "pass2" /\ P.tok = 1 /\ ~NoneRunning(P)
+    /\ procs' = [procs EXCEPT ![p].tok = 0]
+    /\ pool' = pool + 1
+    /\ UNCHANGED <<fs, tmp, clock, w, runid, locks, cmd, hist, ran, ncmds>>
 
 Finish(p) ==
     LET P == procs[p] IN
-    /\ P.kind = "redo" /\ P.pc = "pass2" /\ P.jobs = {}
+    /\ P.kind = "redo" /\ P.pc = "pass2" /\ P.jobs = {} /\ P.tok = 1
     /\ P.queue = << >> \/ (P.err # 0 /\ ~P.keep)
     /\ procs' = [procs EXCEPT ![p].pc = "done", ![p].rc = P.err]
-    /\ UNCHANGED <<fs, tmp, clock, w, runid, locks, cmd, hist, ran, ncmds>>
+    /\ UNCHANGED <<fs, tmp, clock, w, runid, locks, cmd, hist, ran, ncmds, pool>>
 
 (***************************************************************************)
 (* .do scripts (sh -e)                                                     *)
@@ -394,14 +424,14 @@ ReadVal(n) == IF fs[n].ex THEN fs[n].val ELSE NoVal
 SubRedo(S, s, targs, unl, oob, tgt, cyc) ==
     [ProcDefaults EXCEPT !.kind = "redo", !.par = s, !.pc = "declare", !.rid = S.rid,
                          !.keep = S.keep, !.targs = targs, !.tgt = tgt, !.unl = unl,
-                         !.oob = oob, !.cyc = cyc]
+                         !.oob = oob, !.cyc = cyc, !.tok = 1]
 
 ScriptStep(s) ==
     LET S == procs[s] IN
     /\ S.kind = "script" /\ S.pc = "run" /\ S.kid = NoPid
     /\ IF S.opi > Len(OpsOf(S)) THEN
           /\ procs' = [procs EXCEPT ![s].pc = "done", ![s].rc = 0]
-          /\ UNCHANGED <<fs, tmp, clock, w, runid, locks, cmd, hist, ran, ncmds>>
+          /\ UNCHANGED <<fs, tmp, clock, w, runid, locks, cmd, hist, ran, ncmds, pool>>
        ELSE
           LET o   == OpsOf(S)[S.opi]
               e   == EnvOf(s)
@@ -412,9 +442,9 @@ ScriptStep(s) ==
           IN
           CASE op = "ifchange" ->
                  LET k == s \o <<ToString(S.opi)>> IN
-                 /\ procs' = Spawn([procs EXCEPT ![s].kid = k], k,
+                 /\ procs' = Spawn([procs EXCEPT ![s].kid = k, ![s].tok = 0], k,
                                    SubRedo(S, s, o.args, FALSE, FALSE, S.t, S.cyc))
-                 /\ UNCHANGED <<fs, tmp, clock, w, runid, locks, cmd, hist, ran, ncmds>>
+                 /\ UNCHANGED <<fs, tmp, clock, w, runid, locks, cmd, hist, ran, ncmds, pool>>
             [] op = "ifcreate" ->
                  \* ifcreate.rs: an existing path is an error before the edge is added
                  LET F[k \in 0..Len(o.args)] ==
@@ -428,14 +458,14 @@ ScriptStep(s) ==
                  /\ w' = IF r.ok THEN r.w ELSE w
                  /\ procs' = [procs EXCEPT ![s] = IF r.ok THEN nxt
                                                   ELSE [S EXCEPT !.pc = "done", !.rc = 1]]
-                 /\ UNCHANGED <<fs, tmp, clock, runid, locks, cmd, hist, ran, ncmds>>
+                 /\ UNCHANGED <<fs, tmp, clock, runid, locks, cmd, hist, ran, ncmds, pool>>
             [] op = "always" ->
                  LET w1 == AddDep(FromName(w, S.t), S.t, "m", ALWAYS)
                      r  == SetChanged([Load(w1, e, ALWAYS) EXCEPT !.stamp = Missing], S.rid)
                  IN
                  /\ w' = Save(w1, ALWAYS, r)
                  /\ procs' = [procs EXCEPT ![s] = nxt]
-                 /\ UNCHANGED <<fs, tmp, clock, runid, locks, cmd, hist, ran, ncmds>>
+                 /\ UNCHANGED <<fs, tmp, clock, runid, locks, cmd, hist, ran, ncmds, pool>>
             [] op = "stamp" ->
                  LET w1 == FromName(w, S.t)
                      r0 == Load(w1, e, S.t)
@@ -445,7 +475,7 @@ ScriptStep(s) ==
                  IN
                  /\ w' = Save(w1, S.t, r2)
                  /\ procs' = [procs EXCEPT ![s] = nxt]
-                 /\ UNCHANGED <<fs, tmp, clock, runid, locks, cmd, hist, ran, ncmds>>
+                 /\ UNCHANGED <<fs, tmp, clock, runid, locks, cmd, hist, ran, ncmds, pool>>
             [] op = "out" ->
                  LET val == [n |-> S.t, k |-> S.df, v |-> S.dv,
                              d |-> [i \in 1..Len(o.args) |-> ReadVal(o.args[i])]]
@@ -459,10 +489,10 @@ ScriptStep(s) ==
                                                      own |-> "script"]]
                        /\ clock' = clock + 1
                     ELSE UNCHANGED <<fs, clock>>
-                 /\ UNCHANGED <<w, runid, locks, cmd, hist, ran, ncmds>>
+                 /\ UNCHANGED <<w, runid, locks, cmd, hist, ran, ncmds, pool>>
             [] op = "exit" ->
                  /\ procs' = [procs EXCEPT ![s].pc = "done", ![s].rc = o.rc]
-                 /\ UNCHANGED <<fs, tmp, clock, w, runid, locks, cmd, hist, ran, ncmds>>
+                 /\ UNCHANGED <<fs, tmp, clock, w, runid, locks, cmd, hist, ran, ncmds, pool>>
 
 \* the redo-ifchange a script was waiting for has ended
 ScriptResume(s) ==
@@ -470,10 +500,10 @@ ScriptResume(s) ==
     /\ S.kind \in {"script", "unlocked"} /\ S.pc = "run" /\ S.kid # NoPid
     /\ Alive(S.kid) /\ procs[S.kid].pc = "done"
     /\ LET rc == procs[S.kid].rc IN
-       procs' = Kill([procs EXCEPT ![s] = IF rc # 0 THEN [S EXCEPT !.pc = "done", !.rc = rc, !.kid = NoPid]
-                                          ELSE [S EXCEPT !.opi = S.opi + 1, !.kid = NoPid]],
+       procs' = Kill([procs EXCEPT ![s] = IF rc # 0 THEN [S EXCEPT !.pc = "done", !.rc = rc, !.kid = NoPid, !.tok = 1]
+                                          ELSE [S EXCEPT !.opi = S.opi + 1, !.kid = NoPid, !.tok = 1]],
                      {S.kid})
-    /\ UNCHANGED <<fs, tmp, clock, w, runid, locks, cmd, hist, ran, ncmds>>
+    /\ UNCHANGED <<fs, tmp, clock, w, runid, locks, cmd, hist, ran, ncmds, pool>>
 
 \* redo-unlocked (unlocked.rs): phase 1 builds the uncertain dependencies with
 \* REDO_NO_OOB; phase 2 re-decides the target itself with REDO_UNLOCKED.
@@ -485,21 +515,21 @@ UnlockedStep(u) ==
        ELSE
           LET k == u \o <<ToString(U.opi)>>
               targs == IF U.opi = 1 \/ UnlockedBug THEN U.targs ELSE <<U.t>>
-          IN procs' = Spawn([procs EXCEPT ![u].kid = k], k,
+          IN procs' = Spawn([procs EXCEPT ![u].kid = k, ![u].tok = 0], k,
                             SubRedo(U, u, targs, U.opi = 2, TRUE, U.tgt, U.cyc))
-    /\ UNCHANGED <<fs, tmp, clock, w, runid, locks, cmd, hist, ran, ncmds>>
+    /\ UNCHANGED <<fs, tmp, clock, w, runid, locks, cmd, hist, ran, ncmds, pool>>
 
 \* a script whose redo parent is gone (abandoned by an error exit) is reaped by init
 OrphanReap(s) ==
     /\ procs[s].kind \in {"script", "unlocked"} /\ procs[s].pc = "done"
     /\ ~Alive(procs[s].par)
     /\ procs' = Kill(procs, {s})
-    /\ UNCHANGED <<fs, tmp, clock, w, runid, locks, cmd, hist, ran, ncmds>>
+    /\ UNCHANGED <<fs, tmp, clock, w, runid, locks, cmd, hist, ran, ncmds, pool>>
 
 (***************************************************************************)
 ProcStep ==
     \E p \in DOMAIN procs :
-        \/ Declare(p) \/ Consider(p) \/ Pass2(p) \/ Finish(p)
+        \/ Declare(p) \/ Consider(p) \/ Pass2(p) \/ Finish(p) \/ Acquire(p) \/ Release(p)
         \/ \E j \in procs[p].jobs : RecFs(p, j) \/ RecCommit(p, j) \/ UnlDone(p, j)
         \/ ScriptStep(p) \/ ScriptResume(p) \/ UnlockedStep(p) \/ OrphanReap(p)
 
